@@ -85,8 +85,6 @@ func (r c16Route) Key() string {
 	return r.Method + " " + r.Pattern
 }
 
-var c16Wnone = map[string]string{}
-
 // c16Routes is the classification of every pattern registered by
 // registerHTTPHandlers, registerCompilerRoutes and NewServer.
 var c16Routes = []c16Route{
@@ -291,6 +289,9 @@ const c16Root = "c16-root-token-Zq81"
 // in a request, so a marker in a response is data that came out of that index)
 var c16FixIdx = []string{"alpha", "beta", "xsearch", "alpha/sub", "get-links"}
 
+// fixture names the engine refused to create (reported in the evidence)
+var c16FixSkipped []string
+
 func c16Marker(idx string) string {
 	h := sha256.Sum256([]byte("c16marker:" + idx))
 	return "C16MARK" + strings.ToUpper(hex.EncodeToString(h[:5]))
@@ -339,7 +340,7 @@ type c16Env struct {
 	// tokens that are part of the fixture
 	victimJTI string // a live admin token: target of DELETE /auth/keys/{id}
 	victimTok string
-	deadJTI   string            // a token revoked as part of the fixture (its marker exists from the start)
+	deadJTI   string // a token revoked as part of the fixture (its marker exists from the start)
 	deadTok   string
 	revoked   map[string]string // jti -> token, re-applied on every rebuild
 }
@@ -439,8 +440,20 @@ func (e *c16Env) newServer() error {
 
 func (e *c16Env) fixture() error {
 	eng := e.eng
-	for _, name := range c16FixIdx {
+	for _, name := range append([]string{}, c16FixIdx...) {
 		if err := eng.VCreate(name, distance.Euclidean, 0, 0, distance.Float32, "", nil, nil, nil); err != nil {
+			if strings.Contains(name, "/") {
+				// a tree that validates index names may refuse '/': the name then simply does not exist
+				var keep []string
+				for _, n := range c16FixIdx {
+					if n != name {
+						keep = append(keep, n)
+					}
+				}
+				c16FixIdx = keep
+				c16FixSkipped = append(c16FixSkipped, name)
+				continue
+			}
 			return fmt.Errorf("fixture VCreate(%q): %v", name, err)
 		}
 		mk := c16Marker(name)
@@ -802,8 +815,9 @@ func c16JSONStr(s string) string {
 // part "routes": table check, calibration, exhaustive walk
 
 type c16RouteCase struct {
-	Route string `json:"route"`
-	Cred  string `json:"cred"` // none | garbage | alg_none | revoked | expired | read_star | write_star
+	Route   string `json:"route"`
+	Cred    string `json:"cred"`              // none | garbage | alg_none | revoked | expired | read_star | write_star | read_alpha | write_alpha
+	Variant string `json:"variant,omitempty"` // for *_alpha: foreign | slash | decoy ; for kv routes with *_star: the key
 }
 
 func c16StdRequest(e *c16Env, r c16Route) c16Sent {
@@ -821,7 +835,7 @@ func c16StdRequest(e *c16Env, r c16Route) c16Sent {
 
 func TestVerif_C16_routes(t *testing.T) {
 	c16Quiet()
-	col := verifkit.New("C16", "routes", "every registered route (table re-validated against the HandleFunc patterns of the current source) x {no credentials, garbage, alg=none, revoked, expired, read-role '*', write-role '*'}; non-trivial = the reference decision is 'must be refused' or 'must not change state'")
+	col := verifkit.New("C16", "routes", "every registered route (table re-validated against the HandleFunc patterns of the current source) x {no credentials, garbage, alg=none, revoked, expired, read-role '*', write-role '*'}, every index-carrying route x {read, write} token restricted to [alpha] x {foreign index, '/'-named index, decoy/duplicate member}, every mutating /kv route x auth keys; non-trivial = the reference decision is 'must be refused' or 'must not change state'")
 	defer col.Finish()
 	if verifkit.ReplayPath() != "" && verifkit.ReplayPart(verifkit.ReplayPath()) != "routes" {
 		return
@@ -861,6 +875,24 @@ func TestVerif_C16_routes(t *testing.T) {
 		case "write_star":
 			c.Tok = c16Tok{Kind: "valid"}
 			c.Role = "write"
+		case "read_alpha", "write_alpha":
+			c.Tok = c16Tok{Kind: "valid"}
+			c.Role = strings.TrimSuffix(rc.Cred, "_alpha")
+			c.NS = []string{"alpha"}
+			c.Idx, c.Idx2, c.Decoy = "beta", "xsearch", "alpha"
+			switch rc.Variant {
+			case "slash":
+				c.Idx, c.Idx2 = "alpha/sub", "alpha/sub"
+			case "decoy":
+				if r.Where == c16WBody {
+					c.Shape, c.Idx2 = "dup", "alpha" // first index_name alpha, last beta
+				} else {
+					c.Shape = "decoy"
+				}
+			}
+		}
+		if strings.HasPrefix(r.Pattern, "/kv/") && rc.Variant != "" {
+			c.Key = rc.Variant
 		}
 		return c16RunCase(env, c, nil)
 	}
@@ -954,6 +986,64 @@ func TestVerif_C16_routes(t *testing.T) {
 				}
 				col.FailDistinct(rc, "%s", msg)
 				t.Errorf("%s", msg)
+			}
+		}
+	}
+	// every index-carrying route with a token restricted to ["alpha"]: foreign index, '/'-named
+	// index whose first component is "alpha", and an "alpha" decoy next to the foreign index
+	for _, r := range c16Routes {
+		if r.Slow || r.Class == c16Public || r.Class == c16Debug {
+			continue
+		}
+		switch r.Where {
+		case c16WPath, c16WBody, c16WQIndex, c16WQName, c16WSrcTgt:
+		default:
+			continue
+		}
+		for _, cred := range []string{"read_alpha", "write_alpha"} {
+			for _, variant := range []string{"foreign", "slash", "decoy"} {
+				if variant == "slash" && r.Where == c16WPath && verifkit.Known("namespace-from-split-path") {
+					col.Excluded("namespace-from-split-path")
+					continue
+				}
+				if variant == "decoy" && r.Where == c16WSrcTgt && verifkit.Known("index-name-decoy") {
+					col.Excluded("index-name-decoy")
+					continue
+				}
+				rc := c16RouteCase{Route: r.Key(), Cred: cred, Variant: variant}
+				col.Case(rc, true, "class:"+r.Class, "cred:"+cred, "variant:"+variant)
+				n++
+				if msg := runOne(rc); msg != "" {
+					if strings.HasPrefix(msg, "HARNESS:") {
+						t.Fatal(msg)
+					}
+					col.FailDistinct(rc, "%s", msg)
+					t.Errorf("%s", msg)
+				}
+			}
+		}
+	}
+	// the auth keys of the KV store through every /kv route with the strongest non-admin tokens
+	for _, r := range c16Routes {
+		if !strings.HasPrefix(r.Pattern, "/kv/") || r.Class != c16Mutate {
+			continue
+		}
+		for _, cred := range []string{"read_star", "write_star"} {
+			for _, key := range []string{"$VICTIM_MARKER", "$REVOKED_MARKER", c16KeyKV} {
+				if verifkit.Known("kv-exposes-auth-state") {
+					col.Excluded("kv-exposes-auth-state")
+					continue
+				}
+				rc := c16RouteCase{Route: r.Key(), Cred: cred, Variant: key}
+				col.Case(rc, true, "class:"+r.Class, "cred:"+cred, "variant:authkey")
+				n++
+				if msg := runOne(rc); msg != "" {
+					if strings.HasPrefix(msg, "HARNESS:") {
+						t.Fatal(msg)
+					}
+					col.FailDistinct(rc, "%s", msg)
+					t.Errorf("%s", msg)
+				}
 			}
 		}
 	}
